@@ -161,6 +161,17 @@ where
                         bad = Some((x, "evaluator(descending)", e, d));
                     }
                 }
+                // a fresh evaluator for every argument (its first query), asked twice (functions of up to 64 pieces)
+                if ends.len() <= 64 {
+                    for &x in &alpha {
+                        let d = probe.evaluate(x);
+                        let mut fresh = PiecewiseEvaluator::new(&probe.segments);
+                        let (e1, e2) = (fresh.evaluate(x), fresh.evaluate(x));
+                        if (!bits_eq(d, e1) || !bits_eq(d, e2)) && bad.is_none() {
+                            bad = Some((x, "fresh evaluator, first and repeated query", if bits_eq(d, e1) { e2 } else { e1 }, d));
+                        }
+                    }
+                }
                 // up again after the long descent, then a zig-zag of jumps (the same evaluator all along)
                 let zig: Vec<f64> = alpha.iter().cloned().chain((0..alpha.len()).map(|i| if i % 2 == 0 { alpha[(i * 7) % alpha.len()] } else { alpha[alpha.len() - 1 - (i * 3) % alpha.len()] })).collect();
                 for &x in &zig {
@@ -396,7 +407,7 @@ pub fn check(thorough: bool, _seed: u64) -> Check {
     };
     Check {
         id: "C19",
-        rule: "choice tree over byte strings: each leaf is one byte string fed to the real Arbitrary impl of Piecewise<T>; Ok values are evaluated at every x of A(ends) directly, through a fresh PiecewiseEvaluator (one history: ascending, descending, ascending again, then a zig-zag of jumps) and through evaluate_v; non-trivial = input decoding to a function with >= 2 pieces".into(),
+        rule: "choice tree over byte strings: each leaf is one byte string fed to the real Arbitrary impl of Piecewise<T>; Ok values are evaluated at every x of A(ends) directly, through a fresh PiecewiseEvaluator (one history: ascending, descending, ascending again, then a zig-zag of jumps; and one fresh evaluator per argument, asked twice) and through evaluate_v; non-trivial = input decoding to a function with >= 2 pieces".into(),
         assumptions: vec!["arbitrary 1.4.2 decoding of Vec<f64> (used only to classify inputs, never for the verdict)".into()],
         phases: vec![all_bytes, patterns, structured, long, vlong],
         extra: Default::default(),
